@@ -13,6 +13,7 @@ which process runs which task: `schedMap`), and a worker is a function of the mo
 (`Worker.run`), i.e. the integrator is deterministic.
 -/
 import MxlVerif.Lemmas.C09
+import MxlVerif.Lemmas.C09Par
 namespace Mxl.C09
 
 /-- the result of a whole scan as the specification sees it: every row run independently on the
@@ -29,7 +30,9 @@ def independentRuns (w : Worker) (h : Heap) (c : Content) (rows : List (Label ×
 theorem C09_parallel_is_independent (assign : List Nat) (n : Nat) (hn : 0 < n) (w : Worker)
     (h : Heap) (cell : Nat) (c : Content) (rows : List (Label × Row)) (hc : h.read cell = .ok c) :
     parScan assign n w h cell rows = independentRuns w h c rows := by
-  unfold parScan parScanWith independentRuns
+  unfold parScan
+  rw [shippedCopyFirst_eq]
+  unfold parScanWith independentRuns
   rw [hc]
   simp only
   rw [schedMap_eq_map assign n hn]
@@ -141,6 +144,213 @@ theorem C09_aligned_steady_state {β : Type} (rows : List (Label × Row)) (res :
     refine ⟨res[i], by simp [hlt], ?_⟩
     rw [List.getElem?_zip_eq_some]
     simp [hi, hlt]
+
+
+/-! ### `parallelise` itself: cache look-up, pool with timeout, iteration order, sequential fallback -/
+
+/-- ANY SCHEDULE.  When no task times out, pool mode — for every number of processes and every assignment of tasks
+    to processes — returns exactly what sequential mode returns: the same list in the same order under the same keys,
+    or the same exception (a `ValueError` for repeated keys with a cache; else the first raising input's).  And both
+    are the specification: input by input, the stored result if the cache directory had one, else `fn`'s. -/
+theorem C09_parallelise_any_schedule {α β : Type} (fn : α → Except Err β) (inputs : List (Label × α))
+    (cache : Option (Store β)) (s : Sched) (hn : 0 < s.n) (hT : s.timedOut = []) :
+    (parallelise fn inputs cache true s).1 = (parallelise fn inputs cache false s).1 ∧
+    ((cache.isSome = false ∨ distinctKeys (inputs.map (·.1)) = true) →
+      (parallelise fn inputs cache true s).1 = mapE (specRow fn cache) inputs) := by
+  unfold parallelise
+  by_cases hg : (cache.isSome && !distinctKeys (inputs.map (·.1))) = true
+  · simp only [hg, if_true]
+    refine ⟨trivial, ?_⟩
+    intro h
+    rcases h with h | h
+    · simp [h] at hg
+    · simp [h] at hg
+  · simp only [hg, Bool.false_eq_true, if_false, if_true]
+    have hp : drain ((poolOutcomes s fn cache inputs).map (·.1)) = mapE (specRow fn cache) inputs := by
+      rw [pool_spec s hn fn cache inputs, hT, keepFrom_nil]
+    have hs : (seqMap fn cache inputs).1 = mapE (specRow fn cache) inputs := by
+      cases cache with
+      | none => exact seqMap_spec_nocache fn inputs
+      | some st =>
+        have hd : distinctKeys (inputs.map (·.1)) = true := by simpa using hg
+        exact seqMap_spec fn (some st) inputs (some st) hd (fun _ _ => rfl)
+    exact ⟨by rw [hp, hs], fun _ => hp⟩
+
+/-- ROW ALIGNMENT of what `parallelise` returns (either mode, any schedule, nothing timed out): as many results as
+    inputs, the i-th result under the i-th input's key, and it is that input's own result -/
+theorem C09_parallelise_row_aligned {α β : Type} (fn : α → Except Err β) (inputs : List (Label × α))
+    (cache : Option (Store β)) (par : Bool) (s : Sched) (hn : 0 < s.n) (hT : s.timedOut = [])
+    (res : List (Label × β)) (h : (parallelise fn inputs cache par s).1 = .ok res) :
+    res.map (·.1) = inputs.map (·.1) ∧
+    ∀ (i : Nat) (kv : Label × α), inputs[i]? = some kv → ∃ r, res[i]? = some r ∧ specRow fn cache kv = .ok r := by
+  obtain ⟨h1, h2⟩ := C09_parallelise_any_schedule fn inputs cache s hn hT
+  have hpar : (parallelise fn inputs cache true s).1 = .ok res := by
+    cases par with
+    | true => exact h
+    | false => rw [h1]; exact h
+  have hg : cache.isSome = false ∨ distinctKeys (inputs.map (·.1)) = true := by
+    by_cases hg : (cache.isSome && !distinctKeys (inputs.map (·.1))) = true
+    · unfold parallelise at hpar
+      simp [hg] at hpar
+    · cases hc : cache.isSome with
+      | false => exact Or.inl rfl
+      | true => simp [hc] at hg; exact Or.inr hg
+  rw [h2 hg] at hpar
+  exact ⟨mapE_labels _ (specRow_label fn cache) inputs res hpar, (mapE_getElem _ inputs res hpar).2⟩
+
+/-- TIMEOUT: a task that exceeds `timeout` is DROPPED from the returned list — no placeholder.  What comes back is
+    the specification over the remaining inputs, which are a sub-sequence of the inputs (order and keys kept). -/
+theorem C09_parallelise_timeout_drops_rows {α β : Type} (fn : α → Except Err β) (inputs : List (Label × α))
+    (s : Sched) (hn : 0 < s.n) :
+    (parallelise fn inputs none true s).1 = mapE (specRow fn none) (keepFrom s.timedOut 0 inputs) ∧
+    (keepFrom s.timedOut 0 inputs).Sublist inputs := by
+  refine ⟨?_, keepFrom_sublist _ _ _⟩
+  unfold parallelise
+  simp only [Option.isSome_none, Bool.false_and, Bool.false_eq_true, if_false, if_true]
+  exact pool_spec s hn fn none inputs
+
+/-- … which the positional join of `SteadyStateScan` cannot absorb: fewer results than table rows is an error.
+    (The scan drivers never pass a `timeout` — `Generated/C09Facts.lean`, `C09_drivers_pass_no_timeout`.) -/
+theorem C09_dropped_row_breaks_positional_join {β : Type} (rows : List (Label × Row)) (res : List (Label × β))
+    (h : res.length < rows.length) : ssContainer rows res = .error (.valueError "Length mismatch") := by
+  unfold ssContainer
+  have : (rows.length == res.length) = false := by simp; omega
+  simp [this]
+
+/-- CACHE: a directory whose entries are what `fn` itself yields for the inputs filed under those keys (it was
+    filled by an earlier run of the same scan) changes nothing — the call returns what it returns without a cache. -/
+theorem C09_cache_coherent {α β : Type} (fn : α → Except Err β) (inputs : List (Label × α)) (cache : Option (Store β))
+    (hco : ∀ kv r, kv ∈ inputs → cache.bind (·.lookup kv.1) = some r → fn kv.2 = .ok r) :
+    mapE (specRow fn cache) inputs = mapE (specRow fn none) inputs := by
+  apply mapE_congr
+  intro kv hkv
+  unfold specRow
+  cases hl : cache.bind (·.lookup kv.1) with
+  | none => rfl
+  | some r => simp only [Option.bind]; rw [hco kv r hkv hl]
+
+/-- WARM CACHE: once a sequential call over these inputs (distinct keys) has returned, the directory it leaves behind
+    answers ANY later call over the same inputs — sequential or pool mode under any schedule, with ANY function, which
+    is never called — with exactly the first call's results, in the same order under the same keys -/
+theorem C09_cache_second_call_loads {α β : Type} (fn fn' : α → Except Err β) (inputs : List (Label × α)) (st : Store β)
+    (res : List (Label × β)) (st' : Option (Store β)) (hd : distinctKeys (inputs.map (·.1)) = true)
+    (h : parallelise fn inputs (some st) false {} = (.ok res, st'))
+    (par : Bool) (s : Sched) (hn : 0 < s.n) (hT : s.timedOut = []) :
+    (parallelise fn' inputs st' par s).1 = .ok res := by
+  have hseq : seqMap fn (some st) inputs = (.ok res, st') := by
+    unfold parallelise at h
+    simpa [hd] using h
+  have hw := warm_cache_loads fn fn' inputs st res st' hd hseq
+  obtain ⟨h1, h2⟩ := C09_parallelise_any_schedule fn' inputs st' s hn hT
+  cases par with
+  | true => rw [h2 (Or.inr hd)]; exact hw
+  | false => rw [← h1, h2 (Or.inr hd)]; exact hw
+
+/-- … and the hypothesis is needed: the directory is keyed by the ROW LABEL alone, so a directory filled by a
+    different scan (other values under the same labels — the default labels are 0, 1, 2, … for every table) is
+    served as this scan's result, and `fn` is never called (it may even be a function that always raises). -/
+theorem C09_cache_keyed_by_label_only :
+    (parallelise (fun (_ : Nat) => (Except.error (.other "never called") : Except Err Nat)) [(0, 5), (1, 6)]
+        (some [(0, 99), (1, 98)]) false {}).1.toOption = some [(0, 99), (1, 98)] ∧
+    (parallelise (fun (_ : Nat) => (Except.error (.other "never called") : Except Err Nat)) [(0, 5), (1, 6)]
+        (some [(0, 99), (1, 98)]) true { assign := [1, 0], n := 2 }).1.toOption = some [(0, 99), (1, 98)] := by
+  constructor <;> decide
+
+
+/-- the scan drivers go THROUGH `parallelise`: without a cache, `scanWith` (the rows handed to the `parallelise` model, results
+    unpickled in the parent) is the sequential scan resp. the pool scan the theorems above talk about — for either
+    variant of the row task, every schedule -/
+theorem C09_scan_through_parallelise (cf : Bool) (s : Sched) (hn : 0 < s.n) (hT : s.timedOut = []) (w : Worker) (h : Heap)
+    (cell : Nat) (rows : List (Label × Row)) :
+    (scanWith cf false s w h cell rows none).1 = seqScanWith cf w h cell rows ∧
+    (scanWith cf true s w h cell rows none).1 = parScanWith cf s.assign s.n w h cell rows := by
+  unfold scanWith
+  simp only [Option.isSome_none, Bool.false_and, Bool.false_eq_true, if_false, if_true]
+  exact ⟨by rw [seqScanCache_nocache], scanPar_nocache cf s hn hT w h cell rows⟩
+
+/-- SCANS WITH A RESULT CACHE (`scan.*(…, cache=Cache(dir))`, shipped row task).  Row labels pairwise distinct, and every
+    stored entry is what the independent run of the row filed under that label yields (the directory is empty, or was
+    filled by this very scan): then the scan — sequential, or pool mode under ANY schedule — is exactly the independent
+    runs: stored rows are unpickled, the others computed, each into its own fresh cell, in input order. -/
+theorem C09_scan_with_cache (par : Bool) (s : Sched) (hn : 0 < s.n) (hT : s.timedOut = []) (w : Worker) (h : Heap)
+    (cell : Nat) (c : Content) (rows : List (Label × Row)) (st0 : Store Pickled) (hc : h.read cell = .ok c)
+    (hd : distinctKeys (rows.map (·.1)) = true)
+    (hco : ∀ (lr : Label × Row) (p : Pickled), lr ∈ rows → st0.lookup lr.1 = some p → rowPure w c lr.2 = .ok p) :
+    (scanWith true par s w h cell rows (some st0)).1 = independentRuns w h c rows := by
+  have hspec : mapE (specRow (rowPure w c) (some st0)) rows = pureRows w c rows := by
+    rw [pureRows_mapE]
+    exact C09_cache_coherent (rowPure w c) rows (some st0) (fun kv r hkv hl => hco kv r hkv (by simpa [Option.bind] using hl))
+  unfold scanWith independentRuns
+  simp only [hd, Option.isSome_some, Bool.not_true, Bool.and_false, Bool.false_eq_true, if_false]
+  cases par with
+  | true =>
+    simp only [if_true]; rw [scanPar_spec s hn hT w h cell c hc rows st0 hd, hspec]
+    cases pureRows w c rows <;> rfl
+  | false =>
+    simp only [Bool.false_eq_true, if_false]
+    rw [seqScanCache_spec w c cell st0 rows h st0 hc hd (fun _ _ => rfl), hspec]
+    cases pureRows w c rows <;> rfl
+
+/-- … and with repeated row labels a cache is REFUSED before anything runs (results are stored per label) -/
+theorem C09_scan_cache_refuses_repeated_labels (cf par : Bool) (s : Sched) (w : Worker) (h : Heap) (cell : Nat)
+    (rows : List (Label × Row)) (st0 : Store Pickled) (hd : distinctKeys (rows.map (·.1)) = false) :
+    (scanWith cf par s w h cell rows (some st0)).1 =
+      .error (.valueError "Caching needs unique keys, but some keys occur more than once") := by
+  unfold scanWith
+  simp [hd]
+
+/-- `mc.scan_steady_state`: what a pool task computes for ONE Monte-Carlo row — copy the model, write the sample in,
+    run the sequential inner scan on that one object — is the NESTED independent runs: every inner row run separately
+    on a fresh copy of the sample's model `c1`, each result on its own cell of the task's heap, in inner-row order.
+    (The task's heap then travels to the parent, `transplant`; reading the views there is `C09_rows_equal_independent_runs`
+    for the heap `[c, c1]`.) -/
+theorem C09_mc_scan_rows_are_nested_independent_runs (w : Worker) (inner : List (Label × Row)) (c : Content)
+    (sample : Row) :
+    mcScanChild shippedCopyFirst w inner c sample =
+      match applyRow c sample with
+      | .error e => .error e
+      | .ok c1 => independentRuns w [c, c1] c1 inner := by
+  rw [shippedCopyFirst_eq, mcScanChild_char]
+  cases applyRow c sample with
+  | error e => rfl
+  | ok c1 => rfl
+
+/-! ### facts regenerated from scan.py / mc.py / parallel.py on every run (`translate/c09.py` → `Generated/C09Facts.lean`) -/
+
+open Mxl.Generated.C09 in
+/-- the row task: the model is copied BEFORE anything is written to it, both kinds of values are written, the worker is
+    called last (the order of the two writes does not matter: a name is a variable or a parameter, never both) -/
+theorem C09_source_row_task :
+    shippedCopyFirst = true ∧ rowSteps.getLast? = some RowStep.call ∧
+    rowSteps.count RowStep.copy = 1 ∧ rowSteps.count RowStep.updVars = 1 ∧ rowSteps.count RowStep.updPars = 1 ∧
+    rowSteps.count RowStep.call = 1 := by decide
+
+open Mxl.Generated.C09 in
+/-- `parallelise`: what `Model/C09Par.lean` models is what the source does — the key check guards the cache,
+    `_load_or_run` loads before it runs, the pool's results are appended in iteration order, a `TimeoutError` skips the
+    row, the sequential branch is `list(map(worker, inputs))` -/
+theorem C09_source_parallelise :
+    cacheChecksKeys = true ∧ loadBeforeRun = true ∧ seqIsMap = true ∧ appendInOrder = true ∧ timeoutSkipsRow = true := by
+  decide
+
+open Mxl.Generated.C09 in
+/-- EVERY scan driver (scan.* ×4, mc.* ×5, the three mc.* MCA wrappers): rows come from `list(<table>.iterrows())` of the
+    driver's own table argument, the worker is handed `y0=None` (custom initial values are written into the model first,
+    so that a row's own initial values win), no driver passes a `timeout` (so no row is ever dropped:
+    `C09_parallelise_timeout_drops_rows`), every driver passes its cache on -/
+theorem C09_source_drivers :
+    drivers.length = 12 ∧
+    (∀ d ∈ drivers, d.passesTimeout = false ∧ d.workerY0None = true ∧ d.y0OnModel = true ∧ d.passesCache = true) ∧
+    (∀ d ∈ drivers, d.module = "scan" → d.table = "to_scan" ∧ d.passesParallel = true ∧ d.passesMaxWorkers = false) ∧
+    (∀ d ∈ drivers, d.module = "mc" → d.table = "mc_to_scan" ∧ d.passesParallel = false ∧ d.passesMaxWorkers = true) := by
+  decide
+
+open Mxl.Generated.C09 in
+/-- which container joins results with the index: the two `steady_state` drivers positionally (an index built from the
+    same table, `C09_aligned_steady_state`), every other driver by row label (`C09_aligned_dict`) -/
+theorem C09_source_containers :
+    (drivers.filter fun d => d.container == Container.positional).map (fun d => (d.module, d.name))
+      = [("scan", "steady_state"), ("mc", "steady_state")] := by decide
 
 /-! ### why the per-row copy is needed (the code before the fix) -/
 
